@@ -38,25 +38,44 @@ import impl
 import c07_gen as gen
 from common import cfloat, cz, cnat, clist, cpair
 
-THEOREMS = ['C07_plane_intersection_on_both', 'C07_plane_intersection_direction',
-            'C07_project_on_plane', 'C07_axial_vector',
-            'C07_hex_translation', 'C07_side_constant_along_line',
-            'C07_adjacent_at_vertex', 'C07_admissible_listings',
-            'C07_sort_and_vertices_all_orders',
-            'C07_walk_never_hangs_on_hexagons',
-            'C07_hex_base_vectors_partial', 'C07_proj_par_meaning',
-            'C07_hex_adjacency_geometry', 'C07_hex_base_vectors',
-            'C07_base_vector_carries_opposite_plane',
-            'C07_regular_hexagon_in_family', 'C07_domain_check_spec',
-            'C07_domain_check_error', 'C07_lattice_vector',
-            'C07_rhp_cell_hypotheses', 'C07_rhp15_lattice_vectors',
-            'C07_rhp9_lattice_vectors', 'C07_hex_lattice_developed',
-            'C07_base_vectors_wrong_count', 'C07_intersection_error_iff',
-            'C07_sort_sides_outcomes', 'C07_base_vectors_parallel_planes',
-            'C07_collinear_sides_parallel', 'C07_walk_ends_iff_closed_tour',
-            'C07_sort_count_error', 'C07_rhp_is_C03_rhp_linked',
-            'C07_develop_lattice_hex_is_tied', 'C07_caps_parallel_to_axis',
-            'C07_flipped_sense_lattice_error']
+# every theorem of coq/Properties/C07.v is a member of exactly one family; the
+# families are the conjunctions of the member theorems themselves, so one
+# Print Assumptions per family audits all of them
+THEOREMS = ['C07_family_algebra', 'C07_family_combinatorics', 'C07_family_base_vectors', 'C07_family_errors', 'C07_family_linked']
+MEMBERS = ['C07_plane_intersection_on_both',
+           'C07_plane_intersection_direction',
+           'C07_project_on_plane',
+           'C07_axial_vector',
+           'C07_hex_translation',
+           'C07_proj_par_meaning',
+           'C07_side_constant_along_line',
+           'C07_adjacent_at_vertex',
+           'C07_lattice_vector',
+           'C07_admissible_listings',
+           'C07_sort_and_vertices_all_orders',
+           'C07_walk_never_hangs_on_hexagons',
+           'C07_walk_ends_iff_closed_tour',
+           'C07_sort_count_error',
+           'C07_domain_check_spec',
+           'C07_domain_check_error',
+           'C07_hex_base_vectors_partial',
+           'C07_hex_adjacency_geometry',
+           'C07_hex_base_vectors',
+           'C07_base_vector_carries_opposite_plane',
+           'C07_regular_hexagon_in_family',
+           'C07_rhp_cell_hypotheses',
+           'C07_rhp15_lattice_vectors',
+           'C07_rhp9_lattice_vectors',
+           'C07_base_vectors_wrong_count',
+           'C07_intersection_error_iff',
+           'C07_sort_sides_outcomes',
+           'C07_base_vectors_parallel_planes',
+           'C07_collinear_sides_parallel',
+           'C07_caps_parallel_to_axis',
+           'C07_flipped_sense_lattice_error',
+           'C07_hex_lattice_developed',
+           'C07_develop_lattice_hex_is_tied',
+           'C07_rhp_is_C03_rhp_linked']
 TRUSTED = [
     'hand-written model coq/C07/Model.v (modelled, tied by execution only)',
     'binary64 evaluation: the theorems are over R; the model is run at '
